@@ -20,7 +20,7 @@ META = {
         'spelled INF/-INF/NaN; a kind the grammar of that version does not define is a violation.  (D2) layout: the grid '
         'template (ver header + metadata, one column line, one line per row, final newline) is included in the '
         'grammar\'s grid rule; every row emits one cell per column (the row writer ranges over the column names and uses '
-        'row.get), cells joined by ",".  Not decided: "an independent reader recovers the same grid" as an execution; '
+        'row.get), cells joined by ",".  (D3) date-time denotation: the writer emits isoformat() of the value itself and a zone name justified for that instant by timezone_name (clauses shared with C17.D2/D3: fast path before the zero-offset shortcut, scan guarded by offset equality at that instant, no remembered zone).  Not decided: "an independent reader recovers the same grid" as an execution; '
         'numeric payload fidelity.'),
     'rule_text': 'obligations = kinds x versions (inclusion in the spec language), code-point classes x spec-legality, '
                  'layout facts',
@@ -42,6 +42,10 @@ def run(ctx):
         _layout(ctx, version)
     _row_writer(ctx)
     _zinc.version_threading(ctx, 'C04.D1', 'zincdumper')
+    # date-time denotation: the zone name written is justified for that instant (clause shared with C17.D3)
+    from . import c17
+    c17._api(ctx, ctx.model, rule='C04.D3', only=('zincdumper',))
+    c17._timezone_name(ctx, ctx.model, rule='C04.D3')
 
 
 def _layout(ctx, version):
